@@ -116,6 +116,15 @@ func main() {
 			return fmt.Sprint(fs.IsExist(p), fs.IsFile(p), fs.IsDir(p)), nil
 		}})
 	}
+	// read-only probes of paths that descend through a regular file (the host answers these
+	// with "not a directory", not with "no such file")
+	for _, p := range []string{"f/x", "a/b/z"} {
+		p := p
+		ops = append(ops, op{"ReadFile(" + p + ")", nil, func(fs filesystem.Filespace) (string, error) { d, err := fs.ReadFile(p); return string(d), err }})
+		ops = append(ops, op{"Query(" + p + ")", nil, func(fs filesystem.Filespace) (string, error) {
+			return fmt.Sprint(fs.IsExist(p), fs.IsFile(p), fs.IsDir(p)), nil
+		}})
+	}
 	for _, pq := range [][2]string{{"a", "x"}, {"f", "x"}, {"a/b", "d/y"}, {"a", "d/a"}} {
 		pq := pq
 		ops = append(ops, op{"Copy(" + pq[0] + "," + pq[1] + ")", nil, func(fs filesystem.Filespace) (string, error) { return "", fs.Copy(pq[0], pq[1]) }})
